@@ -345,6 +345,8 @@ func (g *batchGen) ops(tag string, maxN int) []KV {
 		}
 		if kv.Op != "del" {
 			switch {
+			case kv.Op == "merge" && g.r.Chance(0.1):
+				kv.V = []byte("~") // operand that merges to an empty (but present) value
 			case g.r.Chance(0.12):
 				kv.V = []byte{}
 			case g.r.Chance(g.bigVals * 0.3):
